@@ -93,6 +93,83 @@ def flows_to_return(body, src_local):
     return 0 in tainted
 
 
+def _tainted_locals(body, src_local):
+    tainted = {src_local}
+    changed = True
+
+    def op_t(op):
+        p = op.get("c") or op.get("m")
+        return p is not None and p["l"] in tainted
+
+    while changed:
+        changed = False
+        for blk in body.blocks:
+            for s in blk["stmts"]:
+                if s["k"] != "assign":
+                    continue
+                rv = s["rv"]
+                src = False
+                if rv["k"] in ("use", "cast"):
+                    src = op_t(rv["a"])
+                elif rv["k"] == "agg":
+                    src = any(op_t(o) for o in rv["ops"])
+                elif rv["k"] == "ref":
+                    src = rv["p"]["l"] in tainted
+                if src and s["dst"]["l"] not in tainted and s["dst"]["l"] != 0:
+                    tainted.add(s["dst"]["l"])
+                    changed = True
+            t = blk["term"]
+            if t["k"] == "call" and any(op_t(a) for a in t["args"]):
+                d = t["dst"]["l"]
+                if t["f"].get("name") in CONSUMING:
+                    continue
+                if "Error" in body.locals[d]["adts"] and d not in tainted and d != 0:
+                    tainted.add(d)
+                    changed = True
+    return tainted
+
+
+def ret_not_error_paths(body, start, src_local):
+    """Explore all paths from `start` to return, tracking the last definition of _0; return
+    (block, description) of a path whose returned value is not derived from the error, else None."""
+    tainted = _tainted_locals(body, src_local)
+
+    def def_is_error(bb, si, kind, payload):
+        if kind == "call":
+            return any((a.get("c") or a.get("m") or {}).get("l") in tainted for a in payload["args"])
+        rv = payload
+        if rv["k"] == "agg":
+            return rv.get("variant") == "Err" or any((o.get("c") or o.get("m") or {}).get("l") in tainted for o in rv["ops"])
+        if rv["k"] in ("use", "cast"):
+            return (rv["a"].get("c") or rv["a"].get("m") or {}).get("l") in tainted
+        return False
+
+    ret_defs = {}
+    for bb, si, kind, payload in body.defs().get(0, []):
+        ret_defs.setdefault(bb, []).append((bb, si, kind, payload))
+    seen = set()
+    stack = [(start, None)]
+    while stack:
+        bb, last = stack.pop()
+        if bb in ret_defs:
+            last = ret_defs[bb][-1]
+        k = (bb, id(last))
+        if k in seen:
+            continue
+        seen.add(k)
+        if body.term(bb)["k"] == "return":
+            if last is None:
+                return (bb, "value decided before the error was seen")
+            if not def_is_error(*last):
+                d = last[3]
+                desc = d.get("variant") or d.get("k")
+                return (last[0], "returns %s" % desc)
+            continue
+        for s2 in body.succ[bb]:
+            stack.append((s2, last))
+    return None
+
+
 def rule_r2(facts, col, bodies=None):
     """C07.R2 the Err of every block-error source reaches the function's return value; for work()
     additionally no path from the Err edge back to another work() call."""
@@ -122,6 +199,13 @@ def rule_r2(facts, col, bodies=None):
                 rets = [x for x in r if body.term(x)["k"] == "return"]
                 if not rets:
                     col.bad("C07.R2", key, body.where(bb), "Err arm never returns", {})
+                    continue
+                # path-sensitive: on EVERY path from the Err arm to return, the last value given to _0 is the error
+                badret = ret_not_error_paths(body, err_t, l)
+                if badret:
+                    col.bad("C07.R2", key, body.where(badret[0]),
+                            "a path from the Err arm of work() reaches `return` with a value that is not the error (%s): "
+                            "under that condition a block failure is reported as success" % badret[1], {"err_arm": err_t})
                     continue
             col.ok("C07.R2", key, body.where(bb), "Err payload flows into the returned value; Err arm leaves the loop")
 
